@@ -23,6 +23,7 @@ import (
 	"encoding/json"
 	"errors"
 	"fmt"
+	"os"
 	"reflect"
 	"runtime"
 	"sort"
@@ -177,6 +178,11 @@ func rankLess(a, b string) bool {
 }
 
 func (c *pctx) flush() {
+	if os.Getenv("C12_DEBUG_OUTCOMES") != "" {
+		for k := range c.strIDs {
+			fmt.Fprintf(os.Stderr, "OUTCOME %s\n", k)
+		}
+	}
 	sigs := make([]string, 0, len(c.viols))
 	for s := range c.viols {
 		sigs = append(sigs, s)
@@ -600,6 +606,9 @@ func rtpClass(b []byte, codec string) string {
 	if pay > 0 {
 		p0 := b[off]
 		switch strings.ToLower(codec) {
+		case "video/vp8", "video/vp9":
+			// class by what pion makes of the descriptor, not by size
+			cls = descriptorClass(strings.ToLower(codec), b[off:off+pay])
 		case "video/h264":
 			t := p0 & 0x1F
 			switch {
@@ -617,6 +626,32 @@ func rtpClass(b []byte, codec string) string {
 		}
 	}
 	return pre + cls
+}
+
+func descriptorClass(codec string, payload []byte) (cls string) {
+	defer func() {
+		if recover() != nil {
+			cls = "descriptor-crashes-pion"
+		}
+	}()
+	var body []byte
+	var err error
+	if codec == "video/vp8" {
+		var v pcodecs.VP8Packet
+		_, err = v.Unmarshal(payload)
+		body = v.Payload
+	} else {
+		var v pcodecs.VP9Packet
+		_, err = v.Unmarshal(payload)
+		body = v.Payload
+	}
+	switch {
+	case err != nil:
+		return "descriptor-truncated"
+	case len(body) == 0:
+		return "descriptor-without-body"
+	}
+	return "descriptor+body"
 }
 
 func codecLabel(codec string) string {
@@ -720,6 +755,7 @@ func (c *pctx) evalPure(a *acc, in []byte, codecList []string) {
 	// under another codec name is the same (codec-independent) defect
 	var genFlags, genKF, genDims bool
 	var genRW [6]bool
+	var genRWF [6]string
 	for ci, codec := range codecList {
 		cid := uint64(ci) << 52
 
@@ -758,7 +794,23 @@ func (c *pctx) evalPure(a *acc, in []byte, codecList []string) {
 						c.purePanic(a, "RewritePacket", codec, codec == "" && len(codecList) > 1, in, pi, call)
 					}
 				} else {
-					mask := c.checkRewrite(a, codec, in, w, sm, delta, err, ind, call)
+					mask, f := checkRewrite(codec, in, w, sm, delta, err, ind)
+					if f != nil {
+						if codec == "" {
+							genRWF[vi] = f.rule + f.field
+						}
+						if codec == "" || genRWF[vi] != f.rule+f.field {
+							label := codecLabel(codec)
+							if codec == "" && len(codecList) > 1 {
+								label = "any"
+							}
+							call.Hex = hex.EncodeToString(in)
+							c.violate(fmt.Sprintf("C12/%s/codecs.RewritePacket/%s/%s", f.rule, label, f.field),
+								fmt.Sprintf("RewritePacket(%q, % X, setMarker=%v, seqno=%#x, delta=%#x) = %v changed byte %d (%02X -> %02X): %s",
+									codec, in, sm, pureSeq, delta, err, f.pos, in[f.pos], w[f.pos], f.why),
+								a.name, fmt.Sprintf("%04d%s|%d|%05d", len(in), hex.EncodeToString(in), b2i(sm), delta), call)
+						}
+					}
 					e := uint64(0)
 					if err != nil {
 						e = 1
@@ -821,20 +873,36 @@ func flagBits(f codecs.Flags) uint64 {
 	return k | uint64(f.Tid)<<8 | uint64(f.Sid)<<16
 }
 
-// checkRewrite is the oracle on RewritePacket's writes.  It returns a small
-// mask describing which fields changed (for the outcome count).
-func (c *pctx) checkRewrite(a *acc, codec string, in, out []byte, sm bool, delta uint16, err error, ind *indep, call pureCall) uint64 {
-	var mask uint64
-	bad := func(rule, why string, i int) {
-		call.Hex = hex.EncodeToString(in)
-		c.violate(fmt.Sprintf("C12/%s/codecs.RewritePacket/%s/%s", rule, codecLabel(codec), rtpClass(in, codec)),
-			fmt.Sprintf("RewritePacket(%q, % X, setMarker=%v, seqno=%#x, delta=%#x) = %v changed byte %d (%02X -> %02X): %s",
-				codec, in, sm, pureSeq, delta, err, i, in[i], out[i], why),
-			a.name, fmt.Sprintf("%04d%s|%d|%05d", len(in), hex.EncodeToString(in), b2i(sm), delta), call)
+// fieldClass names the field a byte position belongs to (for signatures).
+func fieldClass(i, payOff int) string {
+	switch {
+	case i < 12:
+		return fmt.Sprintf("header-byte-%d", i)
+	case payOff < 0:
+		return "byte-after-fixed-header"
+	case i < payOff:
+		return "csrc-or-extension"
+	case i < payOff+4:
+		return fmt.Sprintf("descriptor-byte-%d", i-payOff)
 	}
-	if len(out) != len(in) {
-		c.violate("C12/rewrite-length/codecs.RewritePacket/"+codecLabel(codec), "length changed", a.name, "", call)
-		return 0
+	return "payload-beyond-descriptor"
+}
+
+type rwFinding struct {
+	rule, field, why string
+	pos              int
+}
+
+// checkRewrite is the oracle on RewritePacket's writes.  It returns a small
+// mask describing which fields changed (for the outcome count) and the first
+// rule broken, if any.
+func checkRewrite(codec string, in, out []byte, sm bool, delta uint16, err error, ind *indep) (uint64, *rwFinding) {
+	var mask uint64
+	var f *rwFinding
+	bad := func(rule, why string, i int) {
+		if f == nil {
+			f = &rwFinding{rule, fieldClass(i, ind.payOff), why, i}
+		}
 	}
 	for i := range in {
 		if in[i] == out[i] {
@@ -866,7 +934,7 @@ func (c *pctx) checkRewrite(a *acc, codec string, in, out []byte, sm bool, delta
 			}
 		}
 	}
-	return mask
+	return mask, f
 }
 
 // ---------------------------------------------------------------------------
@@ -1021,7 +1089,7 @@ func (c *pctx) evalWrite(a *acc, ww *writeWorld, in []byte) {
 				key |= 2
 				abs := ind.payOff + i
 				if !(strings.EqualFold(mime, "video/vp8") && ind.vp8ok && abs >= ind.pidOff && abs < ind.pidOff+ind.pidLen) {
-					c.violate("C12/rewrite-out-of-field/rtpDownTrack.Write/"+rec.Class,
+					c.violate("C12/rewrite-out-of-field/rtpDownTrack.Write/"+ww.nc.name+"/"+fieldClass(abs, ind.payOff),
 						fmt.Sprintf("Write(% X) changed payload byte %d (%02X -> %02X), which is not part of the picture id", in, i, ind.pkt.Payload[i], o.Payload[i]),
 						a.name, rank, rec)
 					break
